@@ -90,6 +90,7 @@ SPEC_NAMES = {
     "clock0",
     "clock",
     "call_time",
+    "is_method_of",
 }
 
 
@@ -784,6 +785,18 @@ class SpecMixin:
         self.bottoms = getattr(self, "bottoms", 0) + 1
         self.bottom_where = f"call_time({name!r}): no such call"
         return BOTTOM
+
+    def sp_is_method_of(self, e, fr):
+        """is_method_of(x, obj, 'name'): x is the bound method obj.name"""
+        from .sym import BoundMethod
+
+        x = self.ev(e.args[0], fr)
+        obj = self.ev(e.args[1], fr)
+        name = self.ev(e.args[2], fr)
+        if not isinstance(x, BoundMethod):
+            return False
+        same = x.obj is obj or (isinstance(x.obj, SObj) and isinstance(obj, SObj) and x.obj.oid == obj.oid)
+        return bool(same and x.name == name)
 
     def _opt(self, e, fr):
         ns = self.ev(e.args[0], fr)
